@@ -133,6 +133,16 @@ pub fn run(case: &Value) -> Vec<String> {
             }
         };
         match sib {
+            "import_cycle" => {
+                // the sibling imports the input back: the reader then asks for the input by its bare name
+                if indir.join("types.xsd").is_file() && fail != "reachable_unreadable" {
+                    let back = TYPES_XSD.replace(
+                        "  <xs:simpleType",
+                        "  <xs:import namespace=\"http://zv.test/c17/main\" schemaLocation=\"schema.xsd\"/>\n  <xs:simpleType",
+                    );
+                    std::fs::write(indir.join("types.xsd"), back).unwrap();
+                }
+            }
             "symlink_sibling" => link("types.xsd"),
             "symlink_input" => link(input_name),
             _ => {}
